@@ -112,11 +112,23 @@ def gen_comp(rng, n, count):
     return out
 
 
+# the shapes of shake functor handed to evolution::run(run_count, shake) (see harness/c06_run.cc): the evaluator's
+# score depends on data the functor replaces.  `none` = run(run_count), the library's own never-shaking lambda.
+SHAKES = ["none", "none", "none", "never", "always", "gen0", "gen0", "every", "every", "later", "later", "same"]
+
+
+def shake_params(rng, p, shapes=SHAKES):
+    p["shake"] = rng.choice(shapes)
+    if p["shake"] in ("every", "later", "same"):
+        p["shake_k"] = rng.choice([1, 2, 2, 3])
+
+
 def gen_runs(rng, n, big):
     out = []
     for i in range(n):
         strat, ind = COMBOS[i % len(COMBOS)]
         p = common_params(rng, strat, ind)
+        shake_params(rng, p)
         p["generations"] = rng.choice([1, 2, 3, 5]) if not big else rng.choice([3, 6, 10])
         if strat == "alps":
             p["generations"] = rng.choice([4, 6, 9]) if not big else rng.choice([8, 12, 20])
@@ -145,6 +157,8 @@ def gen_search(rng, n):
              "open_tournament": rng.choice([0, 1]), "open_mate_zone": rng.choice([0, 1]),
              "open_elitism": rng.choice([0, 1]), "open_rates": rng.choice([0, 1]), "open_brood": rng.choice([0, 1])}
         # (an open tournament_size is filled with min(5, individuals, mate_zone): fix 670c717)
+        # a user defined validation_strategy whose shake() changes the data (search::run hands it to evolution::run)
+        shake_params(rng, p, ["none", "none", "gen0", "every", "later", "always"])
         out.append(fmt("search", p))
     return out
 
@@ -433,6 +447,7 @@ def run(chk, replay=None):
                     chk.count(f"{kind}:elitism={kv['elitism']}")
                     if kind in ("run", "search"):
                         chk.count(f"{kind}:runs={kv.get('runs', '1')}")
+                        chk.count(f"{kind}:shake={kv.get('shake', 'none')}")
                     if kind == "comp":
                         chk.count("comp:what=" + kv["what"])
             chk.seen((kind, req), nontrivial=(rk not in ("cfg", "noop")))
@@ -444,6 +459,8 @@ def run(chk, replay=None):
             if rk == "state":
                 t = req.split(" ", 5)
                 chk.count("state:" + t[1])
+                if t[1] == "shake":
+                    chk.count("shake:at-gen0" if t[2] == "0" else "shake:at-gen>0")
                 if t[1] == "restart":
                     chk.count("restart:prev_last_imp>0" if prev_state.get((k, ci), 0) > 0 else "restart:prev_last_imp=0")
                 prev_state[(k, ci)] = int(t[3])
